@@ -280,7 +280,88 @@ def first_difference(a, b, path=()):
     return None
 
 
-def refines(assembled, reference, error_paths, failed, path=()):
+class Problem(str):
+    """A refines() verdict that carries structured detail (for mechanism classification)."""
+    info = None
+
+
+def defer_owners(ref, data):
+    """Which @defer fragments select which response key at which object position.
+
+    ref: a vf.ref.executor.Ref that has run (frags, vars, type_at, op); data: its (non-propagating) result data.
+    Returns {(path tuple, key): set of chains}; a chain is a tuple of (label, path tuple of the object the fragment sits on)
+    for the active @defer fragments enclosing one selection of that key, outermost first; () = selected outside any @defer.
+    A key may stay undelivered only if EVERY chain contains a fragment that was completed with errors."""
+    owners = {}
+    schema = ref.schema
+
+    def defer_of(node):
+        for d in node.directives or ():
+            if d.name.value == 'defer':
+                if ref.directive_arg(node, 'defer') is False:
+                    return None
+                lab = None
+                for a in d.arguments or ():
+                    if a.name.value == 'label' and isinstance(a.value, A.StringValueNode):
+                        lab = a.value.value
+                return (lab,)
+        return None
+
+    def walk_obj(path, sets, value):
+        tname = ref.type_at.get(tuple(path))
+        obj_type = schema.type_map.get(tname) if tname else None
+        if obj_type is None or not isinstance(value, dict):
+            return
+        grouped = {}
+        visited = set()
+
+        def walk(ss, chain):
+            for sel in ss.selections:
+                if not ref.included(sel):
+                    continue
+                if isinstance(sel, A.FieldNode):
+                    key = sel.alias.value if sel.alias else sel.name.value
+                    grouped.setdefault(key, []).append((sel, chain))
+                    continue
+                d = defer_of(sel)
+                inner_chain = chain + ((d[0], tuple(path)),) if d else chain
+                if isinstance(sel, A.FragmentSpreadNode):
+                    name = sel.name.value
+                    if d is None:
+                        if name in visited:
+                            continue
+                        visited.add(name)
+                    frag = ref.frags.get(name)
+                    if frag is None or not ref.applies(frag.type_condition, obj_type):
+                        continue
+                    walk(frag.selection_set, inner_chain)
+                else:
+                    if not ref.applies(sel.type_condition, obj_type):
+                        continue
+                    walk(sel.selection_set, inner_chain)
+        for ss, chain in sets:
+            walk(ss, chain)
+        for key, fields in grouped.items():
+            owners.setdefault((tuple(path), key), set()).update(c for _, c in fields)
+            if key not in value:
+                continue
+            sub = [(f.selection_set, c) for f, c in fields if f.selection_set]
+            if sub:
+                walk_val(path + [key], sub, value[key])
+
+    def walk_val(path, sets, value):
+        if isinstance(value, list):
+            for i, x in enumerate(value):
+                walk_val(path + [i], sets, x)
+        elif isinstance(value, dict):
+            walk_obj(path, sets, value)
+
+    if isinstance(data, dict) and getattr(ref, 'op', None) is not None:
+        walk_obj([], [(ref.op.selection_set, ())], data)
+    return owners
+
+
+def refines(assembled, reference, error_paths, failed, path=(), owners=None):
     """Is `assembled` the (non-propagating) reference with some subtrees nulled and some deferred fragments /
     stream tails withheld?  Returns None or a description of the first offending position.
 
@@ -300,11 +381,24 @@ def refines(assembled, reference, error_paths, failed, path=()):
                 return f'{p}: key {k!r} is not in the reference'
         for k in reference:
             if k not in assembled:
+                chains = owners.get((tuple(p), k)) if owners is not None else None
+                if chains:
+                    def failed_one(el):
+                        return any(f['label'] == el[0] and tuple(f['path']) == el[1] for f in failed)
+                    if all(any(failed_one(el) for el in chain) for chain in chains):
+                        continue
+                    if () in chains:
+                        return f'{p}: key {k!r} missing although it is selected outside any @defer'
+                    pr = Problem(f'{p}: key {k!r} missing although a fragment that selects it was not completed with errors '
+                                 f'(selected under {sorted(tuple(str(e[0]) for e in c) for c in chains)}, failed: {sorted(str(f["label"]) for f in failed)})')
+                    pr.info = {'kind': 'missing-key', 'failed_chains': [c for c in chains if any(failed_one(el) for el in c)],
+                               'unfailed_chains': [c for c in chains if not any(failed_one(el) for el in c)]}
+                    return pr
                 if any(f['path'] == p[:len(f['path'])] for f in failed):
                     continue
                 return f'{p}: key {k!r} missing although no enclosing fragment was completed with errors'
         for k in assembled:
-            d = refines(assembled[k], reference[k], error_paths, failed, path + (k,))
+            d = refines(assembled[k], reference[k], error_paths, failed, path + (k,), owners)
             if d:
                 return d
         return None
@@ -314,7 +408,7 @@ def refines(assembled, reference, error_paths, failed, path=()):
         if len(assembled) < len(reference) and not any(f['path'] == p for f in failed):
             return f'{p}: list shorter than the reference ({len(assembled)} vs {len(reference)}) although no stream here was completed with errors'
         for i, (x, y) in enumerate(zip(assembled, reference)):
-            d = refines(x, y, error_paths, failed, path + (i,))
+            d = refines(x, y, error_paths, failed, path + (i,), owners)
             if d:
                 return d
         return None
